@@ -202,7 +202,12 @@ func (g *G) heredoc() *Heredoc {
 	h := &Heredoc{Dash: g.p(1, 3)}
 	base := pickS(g, []string{"E", "EOF", "終", "END_1", "-E"})
 	h.DelimText = base
-	switch g.n(6) {
+	switch g.n(7) {
+	case 6:
+		// escapes inside a double-quoted delimiter are removed as well: "E\"\$F" stands for E"$F
+		h.DelimText = base + `"$` + "F"
+		h.Delim, h.Quoted = W(Part{K: "dq", Sub: []Part{Lit(base), {K: "esc", S: `"`}, {K: "esc", S: "$"}, Lit("F")}}), true
+		base = h.DelimText
 	case 0:
 		h.Delim, h.Quoted = W(Part{K: "sq", S: base}), true
 	case 1:
